@@ -131,7 +131,13 @@ def pi_const(e):
 
 def x_radians(e, st, args, kwargs):
     e.used_assumptions.add("math.radians(x) = x * pi / 180 with pi an unspecified positive real")
-    yield st, e.to_real(args[0]) * pi_const(e) / 180
+    x = e.to_real(args[0])
+    from .slicing import fold
+    fx = fold(x)
+    if z3.is_rational_value(fx) and fx.numerator_as_long() == 0:
+        yield st, z3.RealVal(0)          # radians(0) is 0 whatever pi is (keeps the query linear)
+        return
+    yield st, x * pi_const(e) / 180
 
 
 def x_sqrt(e, st, args, kwargs):
